@@ -475,6 +475,23 @@ vbi_bit_slicer_init(vbi_bit_slicer *slicer,
 			 + sampling_rate * 256.0 / bit_rate * .25 + 128);
 		break;
 	}
+
+	/* The payload loop has no data end check. When the CRI is found
+	   at sample n it reads up to sample n + reach: the position of
+	   the last bit plus one sample for the linear interpolation.
+	   Do not search for the CRI where this would exceed raw_samples. */
+	{
+		long long reach;
+
+		reach = (((long long) slicer->phase_shift
+			  + (long long) slicer->step
+			  * (payload + frc_bits - 1)) >> 8) + 1;
+
+		if (slicer->cri_bytes > raw_samples - reach)
+			slicer->cri_bytes = raw_samples - reach;
+		if (slicer->cri_bytes < 0)
+			slicer->cri_bytes = 0;
+	}
 }
 
 /**
